@@ -42,6 +42,14 @@ def plan(tier):
         if T == 1:
             sh += sprops.products(gi, 2, [0.0, -1.0, -4.0], dict(unary_penalty=0.5, nbest=3), J)
     sh += sprops.long_shards(tier, [dict(unary_penalty=0.5, nbest=1), dict(unary_penalty=0.5, nbest=3)], J)
+    # minus infinity is a legitimate log-probability (a tag or an attachment the model rules out): a returned tree that uses such an
+    # entry must report minus infinity, nothing finite
+    for gi, g in enumerate(G):
+        if g.name.startswith(('en', 'ja')):
+            continue
+        for n in (1, 2, 3):
+            for nbest in (1, 3):
+                sh.append(('native', gi, n, ('dev', [float('-inf')], -1.0, 2, 20000), dict(unary_penalty=0.5, nbest=nbest), ('score',)))
     return sh
 
 
